@@ -81,6 +81,15 @@ def check(run):
     mm = cx.calls_in(f, 'mmap')
     sz = cx.render(cx.call_args(mm[0])[1]) if mm else None
     ok = len(cnt) == 1 and sz is not None and cnt[0].replace(' ', '').replace('(', '').replace(')', '') == ('%s/sizeofunion mmapped_block' % sz).replace(' ', '').replace('(', '').replace(')', '')
+    if ok and mm:
+        cn = [g.node_of(x) for l, r, op, x in cx.assignments(f) if cx.lhs_text(l) == 'count']
+        mn = g.node_of(mm[0])
+        operands = cx.refs(cx.call_args(mm[0])[1])
+        between = (g.reach([cn[0].id], include_start=False) & g.coreach([mn.id])) - {mn.id}
+        changed = sorted({lv for i in between if g.nodes[i].ast is not None for lv, _x in cx.writes(g.nodes[i].ast) if lv in operands})
+        if changed:
+            ok = False
+            cnt = cnt + ['but %s is rewritten between the count and the mapping' % ', '.join(changed)]
     run.ob('F2/fresh-blocks-fit-in-the-mapping', fn, 'count = (allocate_num_pages * _pagesize) / sizeof(union mmapped_block); mmap(NULL, allocate_num_pages * _pagesize, ...)', ok,
            tu.where(f), 'count = %s; mmap size = %s' % (cnt, sz))
     fail = [n for n in g.nodes if n.kind == 'cond' and 'item ==' in cx.render(n.ast)]
@@ -142,6 +151,23 @@ def check(run):
     pasn = g.edges_of(lambda cn, l: cn.kind == 'cond' and cx.render(cn.ast) == 'closure == 0' and l == 'F')
     ok = bool(pasn) and bool(succ) and g.must_pass_edges(succ[0].id, pasn)
     run.ob('F4/allocation-failure-reported', fn, 'if (closure == NULL) -> MemoryError', ok, tu.where(f))
+    # F5 the cdata's deallocator XDECREFs closure->user_data: when the failed callback is released through the
+    # cdata (and the info tuple separately), the slot must have been cleared after it was last written
+    dec = [n for n in g.nodes if n.ast is not None and stmt_text(n.ast) == 'Py_DECREF(cd)']
+    own = [n for n in g.nodes if n.ast is not None and any(cx.lhs_text(l) == 'cd->closure' and cx.render(r) == 'closure' for l, r, op, _x in cx.assignments(n.ast))]
+    clr = [n.id for n in g.nodes if n.ast is not None and any(cx.lhs_text(l) == 'closure->user_data' and cx.is_null(r) for l, r, op, _x in cx.assignments(n.ast))]
+    preps = [g.node_of(c) for c in prep]
+    okd = bool(dec) and bool(own)
+    why = ''
+    if okd:
+        for src in own + preps:
+            if dec[0].id in g.reach([src.id], avoid=set(clr), include_start=False):
+                okd = False
+                why = 'from `%s` the release `Py_DECREF(cd)` is reachable without `closure->user_data = NULL`: the deallocator would XDECREF a stale or doubly-owned pointer' % stmt_text(src.ast)[:50]
+    run.ob('F5/user-data-slot-cleared-before-release-through-the-cdata', fn, 'closure->user_data = NULL on every path to Py_DECREF(cd)', okd, tu.where(dec[0].ast) if dec else tu.where(f), why)
+    dl = cfg_of(tu, 'cdataowninggc_dealloc')
+    xd = [n for n in dl.nodes if n.ast is not None and 'user_data' in cx.render(n.ast)]
+    run.saw('deallocator reads closure->user_data', [stmt_text(n.ast)[:80] for n in xd])
     run.min_instances('F1', 2)
     run.min_instances('F2', 7)
     run.min_instances('F3', 6)
